@@ -58,8 +58,9 @@ class TripWire(Exception):
 class Src(object):
     """Counting source iterator.  n=None: endless.  trip: raise TripWire instead of ending."""
 
-    def __init__(self, n=None, trip=False, vals="signed", salt=0):
+    def __init__(self, n=None, trip=False, vals="signed", salt=0, cap=None):
         self.n, self.trip, self.vals, self.salt = n, trip, vals, salt
+        self.cap = cap          # endless sources: a stage draining them must not hang the check
         self.count = 0
         self.tripped = False
 
@@ -80,6 +81,9 @@ class Src(object):
                 self.tripped = True
                 raise TripWire("source read past item %d" % self.n)
             raise StopIteration
+        if self.cap is not None and self.count >= self.cap:
+            self.tripped = True
+            raise TripWire("runaway: endless source drained (%d items read)" % self.count)
         v = self.value(self.count)
         self.count += 1
         return v
@@ -90,10 +94,11 @@ class Src(object):
 class Tap(object):
     """Counting pass-through placed between two stages of a chain (lazy: no iter() before use)."""
 
-    def __init__(self, inner):
+    def __init__(self, inner, cap=None):
         self.inner = inner
         self.itr = None
         self.count = 0
+        self.cap = cap
 
     def __iter__(self):
         return self
@@ -101,6 +106,8 @@ class Tap(object):
     def __next__(self):
         if self.itr is None:
             self.itr = iter(self.inner)
+        if self.cap is not None and self.count >= self.cap:
+            raise TripWire("runaway: %d items pulled at an inner boundary" % self.count)
         v = next(self.itr)
         self.count += 1
         return v
@@ -114,9 +121,10 @@ class Ctx(object):
     def __init__(self):
         self.aux = []          # (stage index, rule, Src)
         self.stage = 0
+        self.cap = None
 
     def mk_aux(self, rule="lockstep", vals="pos"):
-        s = Src(None, vals=vals, salt=len(self.aux) + 1)
+        s = Src(None, vals=vals, salt=len(self.aux) + 1, cap=self.cap)
         self.aux.append((self.stage, rule, s))
         return s
 
@@ -565,6 +573,8 @@ def _attach(cases):
         if "ok" not in o:
             raise common.InfraError("C02 spec query rejected: %s for %s" % (o, json.dumps(c)[:300]))
         c["need"] = o["ok"]["need"]
+        # no boundary legitimately carries more items than this (runaway guard for eager mutants)
+        c["cap"] = max([c["need"]] + [lv[-1] for lv in o["ok"]["spec"] if lv]) + 3000
     return cases
 
 
@@ -607,8 +617,10 @@ def _run_reads(c):
     K = c["k"]
     mode = c["mode"]
     n = None if mode == "endless" else c["need"] + (0 if mode == "trip" else c["slack"])
-    src = Src(n, trip=(mode == "trip"), vals=c.get("vals", "signed"))
+    RUNAWAY = c.get("cap", c["need"] + 3000)
+    src = Src(n, trip=(mode == "trip"), vals=c.get("vals", "signed"), cap=RUNAWAY)
     ctx = Ctx()
+    ctx.cap = RUNAWAY
     ctx.K = K
     taps = [src]
     kinds = _kinds(c["chain"])
@@ -620,7 +632,7 @@ def _run_reads(c):
         out = R[el["st"]]["build"](cur, el["p"], ctx)
         stage_objs.append(out)
         if i + 1 < len(c["chain"]):
-            cur = Tap(out)
+            cur = Tap(out, cap=RUNAWAY)
             taps.append(cur)
         else:
             cur = out
@@ -640,6 +652,8 @@ def _run_reads(c):
                 a[2].append(v)
     except StopIteration:
         obs["ended"] = True
+    except CaseTimeout:
+        raise
     except Exception as e:  # TripWire, RuntimeError, ...
         obs["err"] = "OTHER:TripWire" if isinstance(e, TripWire) else err_kind(e)
         obs["errmsg"] = str(e)[:200]
@@ -647,15 +661,34 @@ def _run_reads(c):
     return obs
 
 
+class CaseTimeout(Exception):
+    pass
+
+
+def _alarm(_sig, _frm):
+    raise CaseTimeout("case did not finish within %d s" % CASE_TIMEOUT)
+
+
+CASE_TIMEOUT = 4
+
+
 def impl(c):
     al = _al()
     if c["entry"] == "reads":
         if "need" not in c:
             _attach([c])
+        import signal
+        old = signal.signal(signal.SIGALRM, _alarm)
+        signal.setitimer(signal.ITIMER_REAL, CASE_TIMEOUT)
         try:
             return _run_reads(c)
+        except CaseTimeout as e:
+            return {"err": "OTHER:Timeout", "errmsg": str(e)}
         except Exception as e:
             return {"err": "build:" + err_kind(e), "errmsg": str(e)[:300]}
+        finally:
+            signal.setitimer(signal.ITIMER_REAL, 0)
+            signal.signal(signal.SIGALRM, old)
     if c["entry"] == "take":
         src = Src(c["len"], trip=True)
         s = al.Stream(src)
@@ -665,7 +698,7 @@ def impl(c):
         except Exception as e:
             return {"err": "OTHER:TripWire" if isinstance(e, TripWire) else err_kind(e), "pulled": src.count}
     if c["entry"] == "peek":
-        src = Src(None)
+        src = Src(None, cap=5000)
         s = al.thub(src, 1) if c["hub"] else al.Stream(src)
         try:
             got = s.peek(c["n"])
@@ -764,7 +797,7 @@ def tally(eng, c, io):
 
 
 def _strip(c):
-    d = {k: v for k, v in c.items() if k != "need"}
+    d = {k: v for k, v in c.items() if k not in ("need", "cap")}
     d["chain"] = [dict(el) for el in c["chain"]]
     return d
 
